@@ -213,12 +213,21 @@ def shape(t):
     return s[:12]
 
 
+def dist_shape(code):
+    """the code with its whitespace removed, upper-cased, numbers collapsed; and whether the spelling was all upper case"""
+    raw = re.sub(r'\s+', '', code)
+    return '%s:%s' % (re.sub(r'[0-9.]+', 'd', raw.upper())[:16], 'upper' if raw == raw.upper() else 'mixedcase')
+
+
 def signature(cl, code, text, result, site, x, pats):
     from .c10 import code_class
     cls = 'loose' if x['loose'] else code_class(code, pats)
     if cl == 'raised_other_than_supplied_error':
         return '%s:%s' % (cl, site)           # call site: exception class @ function : source line
     d = x['dist']
+    if cl == 'speed_not_checked_for_stated_distance':
+        # why the library's estimator might have no figure for this code - by the shape of the code alone
+        return '%s:%s:%s' % (cl, dist_shape(code), 'nodist' if d <= 0 else 'dist')
     zone = 'nodist' if d <= 0 else 'le200' if d <= 200 else 'lt800' if d < 800 else 'ge800'
     return '%s:%s:%s:again=%s:result=%s:prec=%s' % (cl, cls.split('+')[0], zone, x['again'], shape(result), 'none' if x['prec'] < 0 else 'set')
 
